@@ -70,22 +70,25 @@ func (n *c12NS) effSealed() bool {
 }
 
 type c12Mount struct {
-	NS       *c12NS   `json:"-"`
-	NSPath   string   `json:"ns"`
-	Path     string   `json:"path"` // mount path without "auth/"
-	Auth     bool     `json:"auth,omitempty"`
-	Type     string   `json:"type"`
-	Tag      string   `json:"tag"`
-	Accessor string   `json:"accessor"`
-	UUID     string   `json:"uuid"`
-	Prefix   string   `json:"prefix"`
-	Core     bool     `json:"core,omitempty"`    // sys / token / identity: core-owned storage
-	Default  bool     `json:"default,omitempty"` // created by the core, not by the harness
-	Cubby    bool     `json:"cubbyhole,omitempty"`
-	Dead     bool     `json:"dead,omitempty"`
-	Odd      bool     `json:"holds_key_with_empty_segment,omitempty"`
-	Keys     []string `json:"-"` // raw keys stored through this mount
-	Data     []string `json:"-"` // data/ paths written through this mount
+	NS             *c12NS `json:"-"`
+	NSPath         string `json:"ns"`
+	Path           string `json:"path"` // mount path without "auth/"
+	Auth           bool   `json:"auth,omitempty"`
+	Type           string `json:"type"`
+	Tag            string `json:"tag"`
+	Accessor       string `json:"accessor"`
+	UUID           string `json:"uuid"`
+	Prefix         string `json:"prefix"`
+	Core           bool   `json:"core,omitempty"`    // sys / token / identity: core-owned storage
+	Default        bool   `json:"default,omitempty"` // created by the core, not by the harness
+	Cubby          bool   `json:"cubbyhole,omitempty"`
+	Dead           bool   `json:"dead,omitempty"`
+	Odd            bool   `json:"holds_key_with_empty_segment,omitempty"`
+	Shadow         *c12NS `json:"-"` // the mount's path lies inside the path of this (other) namespace
+	ShadowN        string `json:"inside_path_of_namespace,omitempty"`
+	shadowReported bool
+	Keys           []string `json:"-"` // raw keys stored through this mount
+	Data           []string `json:"-"` // data/ paths written through this mount
 }
 
 func (m *c12Mount) api() string {
@@ -516,10 +519,17 @@ func (w *c12World) sync() {
 				m.Cubby = m.Type == "cubbyhole" || m.Type == "ns_cubbyhole"
 				m.Dead = false
 				pref, found := w.v.Core.router.MatchingStoragePrefixByAPIPath(ctx, m.api())
-				if !found || pref == "" {
+				switch {
+				case found && pref != "":
+					m.Prefix = pref
+				case w.shadowOf(m) != nil:
+					// a mount accepted inside the path of a sealed namespace can lose its route
+					// when that namespace's failed unseal is rolled back (same root cause as
+					// the C12-mount-inside-sealed-namespace-path finding); keep the last prefix
+					w.r.Count("shadowed_mounts_without_route", 1)
+				default:
 					w.t.Fatalf("verif: router has no storage prefix for %s", m)
 				}
-				m.Prefix = pref
 				seen[m] = true
 			}
 		}
@@ -527,6 +537,13 @@ func (w *c12World) sync() {
 	for _, m := range w.mounts {
 		if !seen[m] && m.NS != nil && !m.NS.effSealed() {
 			m.Dead = true
+		}
+	}
+	for _, m := range w.mounts {
+		if !m.Dead && m.NS != nil {
+			if m.Shadow = w.shadowOf(m); m.Shadow != nil {
+				m.ShadowN = m.Shadow.Path
+			}
 		}
 	}
 	// cross-check of the two sources (router vs namespace store): a mount's storage
@@ -558,7 +575,7 @@ func (w *c12World) sync() {
 		w.regions = append(w.regions, c12Region{Prefix: n.Prefix, NS: n})
 	}
 	for _, m := range w.mounts {
-		if !m.Dead {
+		if !m.Dead && m.Prefix != "" {
 			w.regions = append(w.regions, c12Region{Prefix: m.Prefix, NS: m.NS, Mount: m})
 		}
 	}
@@ -576,10 +593,36 @@ func (w *c12World) classify(ck string) c12Region {
 	return best
 }
 
+// shadowOf: the deepest other namespace whose path is a prefix of the mount's
+// full path. The core refuses such mounts (path conflict) unless that namespace
+// is sealed at the time; requests to the path then resolve to that namespace.
+func (w *c12World) shadowOf(m *c12Mount) *c12NS {
+	var d *c12NS
+	full := m.NS.Path + m.api()
+	for _, n := range w.nss {
+		if n != m.NS && n.Path != "" && strings.HasPrefix(full, n.Path) && len(n.Path) > len(m.NS.Path) && (d == nil || len(n.Path) > len(d.Path)) {
+			d = n
+		}
+	}
+	return d
+}
+
+func (w *c12World) markShadow(m *c12Mount) {
+	m.Shadow = w.shadowOf(m)
+	m.ShadowN = ""
+	if m.Shadow != nil {
+		m.ShadowN = m.Shadow.Path
+		w.r.Count("mounts_accepted_inside_the_path_of_a_sealed_namespace", 1)
+		w.step("mount %s was accepted although its path lies inside namespace %q (sealed=%v)", m, m.Shadow.Path, m.Shadow.effSealed())
+	}
+}
+
+// liveMounts: usable mounts of reachable namespaces (mounts whose path is
+// shadowed by a namespace are handled separately).
 func (w *c12World) liveMounts(pred func(*c12Mount) bool) []*c12Mount {
 	var out []*c12Mount
 	for _, m := range w.mounts {
-		if !m.Dead && m.NS != nil && !m.NS.effSealed() && (pred == nil || pred(m)) {
+		if !m.Dead && m.NS != nil && m.Shadow == nil && !m.NS.effSealed() && (pred == nil || pred(m)) {
 			out = append(out, m)
 		}
 	}
@@ -617,6 +660,7 @@ func (w *c12World) mount(n *c12NS, p, typ string, auth bool) *c12Mount {
 		w.t.Fatalf("verif: mounted %s%s but the mount table does not show it", n.Path, p)
 	}
 	nm.Default = false
+	w.markShadow(nm)
 	key := n.Path + "|" + nm.api()
 	for _, f := range w.freed {
 		if f == key {
@@ -680,6 +724,7 @@ func (w *c12World) remount(m *c12Mount, dst *c12NS, to string) bool {
 	w.freed = append(w.freed, oldNS.Path+"|"+oldAPI)
 	w.sync()
 	w.step("remount %s -> %s ok; prefix %s -> %s", from, target, oldPrefix, m.Prefix)
+	w.markShadow(m)
 	w.r.Count("remounts", 1)
 	if oldNS != m.NS {
 		w.r.Count("remounts_across_namespaces", 1)
